@@ -247,7 +247,7 @@ theorem evConnected_Port {w : World} {k : Nat} {p : World × Option Err} (h : Po
     · cases hE
   · cases hE
 
-theorem evConnFail_Port {w w' : World} {k : Nat} (h : PortInv w) (he : evConnFail w k = some w') : PortInv w' := by
+theorem evConnFail_Port {w w' : World} {k : Nat} (h : PortInv w) (he : evConnFail w k e = some w') : PortInv w' := by
   unfold evConnFail at he
   split at he
   · cases he; exact fireFail_Port _ _ _ h
@@ -374,9 +374,9 @@ theorem step_Port (w : World) (e : Event) (h : PortInv w) : PortInv (step w e) :
     cases hE : evConnected w k with
     | none => exact h
     | some p => exact evConnected_Port h hE
-  | connFail k =>
+  | connFail k e =>
     simp only [step]
-    cases hE : evConnFail w k with
+    cases hE : evConnFail w k e with
     | none => exact h
     | some w' => exact evConnFail_Port h hE
   | data i d =>
